@@ -60,6 +60,17 @@ func genRecord(rng *rand.Rand, ansi, multiline bool, k int) string {
 		sb.WriteString("\nsecond line")
 	}
 	fmt.Fprintf(&sb, " #%d", k)
+	// trailing blanks belong to the record (and are printed even when --with-nth shows the whole line)
+	switch rng.Intn(10) {
+	case 0:
+		sb.WriteString("  ")
+	case 1:
+		sb.WriteString("\t")
+	case 2:
+		if multiline {
+			sb.WriteString(" \n")
+		}
+	}
 	return sb.String()
 }
 
@@ -97,6 +108,9 @@ func workerC07Filter(r *vk.Run, w, n int, args []string) {
 		read0 := rng.Intn(4) == 0
 		print0 := read0 || rng.Intn(5) == 0
 		nrec := []int{0, 1, 3, 10, 40, 120}[rng.Intn(6)]
+		if rng.Intn(50) == 0 {
+			nrec = 9000 // several 64 KiB reads: records straddle read boundaries, buffers are recycled
+		}
 		var recs []string
 		for k := 0; k < nrec; k++ {
 			recs = append(recs, genRecord(rng, ansi, read0, k))
